@@ -74,3 +74,12 @@ Lemma readByte_orig_refuted : exists tg s, run_src readByte_orig tg eEOF s <> ru
 Proof. exists true, [[7]]. vm_compute. discriminate. Qed.
 Lemma sloppy_refuted : exists ws k, k < lenN (image ws) /\ w_ok (write_to ws k) = true /\ sink_of (write_to ws k) <> image ws.
 Proof. exists (sloppy_calls [1; 2] [3]), 1. repeat split; vm_compute; auto; discriminate. Qed.
+
+(* ---------------------------------------------------------------- phase 2 *)
+From GoMC Require Import Proofs.C09_more.
+Lemma ws_nbt_marshaler f name w : writer_safe (wt_doc_calls f name w) (Model.C01.doc f name (untree w)).
+Proof. apply checked_writer_safe; apply wt_doc_calls_ok. Qed.
+Lemma nbtfield_frag {A} (body : N -> dec A) : (forall id, robust (body id)) -> frag_invariant (d_nbtfield body).
+Proof. intros H. apply robust_frag_invariant. now apply nbtfield_robust. Qed.
+Lemma nbtfield_fault {A} (body : N -> dec A) : (forall id, robust (body id)) -> fault_safe (d_nbtfield body).
+Proof. intros H. apply robust_fault_safe. now apply nbtfield_robust. Qed.
